@@ -16,6 +16,28 @@ from experimaestro import experiment  # noqa: E402
 from vx.real import W  # noqa: E402
 
 logging.basicConfig(level=logging.WARNING)
+
+# Crash-point injection for the *scheduler* process (C11): die right before / right after the
+# k-th job process is started (after = before its .pid file can be written)
+crash = os.environ.get("VX_CRASH")
+if crash:
+    import signal
+    from experimaestro.connectors.local import LocalProcessBuilder
+
+    k, where = crash.split(":")
+    count = [0]
+    real_start = LocalProcessBuilder.start
+
+    def start(self, *a, **kw):
+        count[0] += 1
+        if count[0] == int(k) and where == "before-spawn":
+            os.kill(os.getpid(), signal.SIGKILL)
+        p = real_start(self, *a, **kw)
+        if count[0] == int(k) and where == "after-spawn":
+            os.kill(os.getpid(), signal.SIGKILL)
+        return p
+
+    LocalProcessBuilder.start = start
 try:
     with experiment(ws, name, port=-1) as xp:
         xp.workspace.launcher.setenv("PYTHONPATH", os.environ["VX_PYTHONPATH"])
